@@ -90,6 +90,7 @@ func (h *History) progressAt(d *Decoded, k int) progress {
 	blockEnd := map[int]int64{}  // file -> end of file
 	blockAt := map[int]map[int64]bool{}
 	varDirty := false
+	replayedVar := false
 	for i := 0; i < k && i < len(d.Evs); i++ {
 		e := d.Evs[i]
 		switch e.K {
@@ -109,6 +110,11 @@ func (h *History) progressAt(d *Decoded, k int) progress {
 			p.inWindow = inPlace && i == k-1
 		case "vindex":
 			p.inWindow = false
+		case "walstatus":
+			// a replay starts (REPLAYINPROCESS) while variable TGs are applied and unchecked: it re-appends them
+			if e.B == 3 && varDirty {
+				replayedVar = true
+			}
 		case "walapp":
 			if e.Rec.T == "txn" && e.Rec.Dest == 1 && e.Rec.St == 2 {
 				varDirty = false
@@ -120,7 +126,7 @@ func (h *History) progressAt(d *Decoded, k int) progress {
 			p.inWindow = false
 		}
 	}
-	p.varUnchecked = varDirty
+	p.varUnchecked = varDirty || replayedVar
 	p.noHeader = map[string]bool{}
 	for _, fi := range d.Files {
 		if fi.CreatAt < k && (fi.HdrAt < 0 || fi.HdrAt >= k) {
